@@ -121,12 +121,18 @@ impl<'a> Ctx<'a> {
     /// does the case still fail with a signature of the same class (and not a listed finding)?
     fn still_fails(&self, case: &Case, class: &str) -> bool {
         let reps = if case.is_sched() { 1 } else { 4 };
-        for _ in 0..reps {
+        for i in 0..reps {
+            let t = Instant::now();
             let v = (self.def.check)(case);
+            // expensive evaluations (e.g. an exhausted budget) are not repeated
+            let slow = t.elapsed().as_millis() > 800;
             if let Some(f) = v.fail {
                 if sig_class(&f.sig) == class && !known::is_open(self.def.id, &f.sig) {
                     return true;
                 }
+            }
+            if slow && i >= 0 {
+                break;
             }
         }
         false
@@ -254,10 +260,17 @@ fn write_part(args: &Args, def: &PropDef, st: &Stats, wall: f64, violations: u32
 }
 
 fn report_violation(args: &Args, ctx: &Ctx, case: Case, f: Fail, phase: &'static str) -> ! {
+    use std::io::Write;
     ctx.stats.borrow_mut().frozen = true;
     let class = sig_class(&f.sig).to_string();
+    // the failing case is on record before any (possibly slow) shrinking starts
+    let prelim = write_replay(args, &case, &f, phase);
+    println!("failure: {}", f.msg);
+    println!("signature: {}", f.sig);
+    println!("VIOLATION-PRELIM property={} replay={}", args.id, prelim);
+    let _ = std::io::stdout().flush();
     // polish with the harness' own shrinker
-    let (small, used) = shrink::shrink(&case, 250, |c| ctx.still_fails(c, &class));
+    let (small, used) = shrink::shrink(&case, 250, 45, ctx.def.adjust, |c| ctx.still_fails(c, &class));
     // message / signature of the minimal case
     let mut fail = f;
     for _ in 0..4 {
@@ -380,6 +393,7 @@ fn main() {
             cases: n,
             failure_persistence: None,
             max_shrink_iters: 600,
+            max_shrink_time: 45_000,
             rng_algorithm: RngAlgorithm::ChaCha,
             rng_seed: RngSeed::Fixed(seed),
             ..Config::default()
